@@ -186,7 +186,7 @@ func runCheck(o checkOpts) *checkResult {
 			}
 		}
 	}
-	var allObls, reachObls []*Obligation
+	var allObls, reachObls, blockObls []*Obligation
 	var warns, errs []string
 	externs, trusted, relies, unmodelled, inlined := map[string]bool{}, map[string]bool{}, map[string]bool{}, map[string]bool{}, map[string]bool{}
 	type fsum struct {
@@ -215,6 +215,9 @@ func runCheck(o checkOpts) *checkResult {
 				}
 			}
 			reachObls = append(reachObls, r.ReachChecks...)
+			if o.tier == "thorough" {
+				blockObls = append(blockObls, r.BlockReach...)
+			}
 			fsums = append(fsums, fsum{k, m.String(), len(r.Obls), n})
 			for _, x := range r.Externs {
 				if fc2 := w.db.Funcs[x]; fc2 != nil && fc2.Trusted && !fc2.Extern {
@@ -290,6 +293,16 @@ func runCheck(o checkOpts) *checkResult {
 			failed = append(failed, ob)
 			if ob.Status == "disagree" || ob.Status == "error" {
 				res.broken = append(res.broken, fmt.Sprintf("solver %s on %s: %v", ob.Status, ob.Name, ob.Answers))
+			}
+		}
+	}
+	// thorough: which blocks can no execution allowed by the contracts enter?
+	deadBlocks := []string{}
+	if len(blockObls) > 0 {
+		discharge(blockObls, dischargeCfg{dir: dir, timeoutS: 10, idxSortOf: idxSortOf})
+		for _, b := range blockObls {
+			if b.Status == "unsat" {
+				deadBlocks = append(deadBlocks, b.Name+" at "+b.Pos)
 			}
 		}
 	}
@@ -374,7 +387,7 @@ func runCheck(o checkOpts) *checkResult {
 		"govc: SSA construction by golang.org/x/tools v0.29.0 and govc's SSA->SMT semantics (DESIGN.md sections 2-3, 8)",
 		"SMT solvers z3 5.1.0 (z3-new), cvc5 1.0.x, z3 4.8.12",
 		"machine model: GOOS=linux GOARCH=amd64, int is 64 bit; in the int encoding +,-,* wrap exactly as in Go (no unchecked mathematical reading)",
-		"slice lengths/capacities and string lengths are at most 2^56; pointer parameters and receivers are non-nil",
+		"slice lengths/capacities and string lengths are at most 2^56; receivers are non-nil; a pointer parameter is assumed non-nil only if the function never compares it with nil and its contract does not say `nilable`",
 	}
 	var assumptions []string
 	for _, x := range sortedKeys(externs) {
@@ -408,7 +421,8 @@ func runCheck(o checkOpts) *checkResult {
 			"solver_time_s": round3(solverTime), "generation_time_s": round3(genS), "solve_wall_s": round3(solveS),
 			"replay": "a failing obligation of a plain-data function is replayed: model -> inputs -> run of the real function (go test -overlay) -> the contract alone evaluated on (inputs, observed outputs); other violations are reported with no-failing-input-found (DESIGN.md 12.5)",
 			"package_functions_without_contract": w.uncovered(),
-			"vacuity_guards": map[string]interface{}{"return_reachability_queries": len(reachObls), "reachable": reachSat, "dead_returns": reachDead},
+			"vacuity_guards": map[string]interface{}{"return_reachability_queries": len(reachObls), "reachable": reachSat, "dead_returns": reachDead,
+				"block_reachability_queries": len(blockObls), "unreachable_blocks": deadBlocks},
 			"relies_on_contracts_proved_under_their_own_tags": sortedKeys(relies),
 			"inlined_callees": sortedKeys(inlined), "lemmas": len(lemmas),
 			"undischarged": namesOf(failed), "known_findings_reported": res.known,
